@@ -7,6 +7,7 @@ import SelfiesVerif.Spec.Derivation
 import SelfiesVerif.Spec.SameMolecule
 import SelfiesVerif.Proofs.KekulizeSound
 import SelfiesVerif.Spec.Matching
+import SelfiesVerif.Proofs.AttrExactGlobal
 
 namespace SV.Driver
 open SV
@@ -179,6 +180,12 @@ def handle (st : St) (fields : List String) : St × String :=
       let g ← Spec.decodeGraph st.table (decStr s) (flags.contains 'c')
       let r ← molToSmiles g.toMol
       pure r.1))
+  | ["encl", flags, s] =>
+    -- C17: for every atom-making input position k (in order), the positions of the branch symbols ENCLOSING it
+    -- (attribution-free walk of the derivation, Proofs/AttrSpans.lean) followed by k itself
+    let w := walkAll st.table (seenSymbols (flags.contains 'c') (decStr s)) 0
+    (st, "ok\t" ++ ";".intercalate (w.made.map fun k =>
+      ",".intercalate ((encl w.spans k ++ [k]).map toString)))
   | ["decg", flags, s] =>
     (st, encPy encMol (decodeGraph st.table (decStr s) (flags.contains 'c') false))
   | ["enc", flags, tape, s] =>
